@@ -67,7 +67,24 @@ pub fn leaves(dbg: &str) -> Vec<Value> {
 fn spirv_mask_name(w: &str) -> bool { crate::gen::enums::MASK_NAMES.contains(&w) }
 
 /// top-level items of a `Storage { data: [a, b, c] }` / `[a, b, c]` Debug text
+/// the entries of a Debug-printed collection, in order: a list `Name { data: [a, b] }` / `[a, b]`, or a map
+/// `{k0: a, k1: b}` (keys dropped) - however the storage chooses to print itself
 pub fn items(dbg: &str) -> Vec<String> {
+    let t = dbg.trim_start();
+    if t.starts_with('{') {
+        let inner = items(&format!("[{}]", &t[1..t.rfind('}').unwrap_or(t.len())]));
+        return inner.into_iter().map(|e| {
+            // drop the key: text up to the first ':' outside brackets / strings
+            let cs: Vec<char> = e.chars().collect();
+            let mut depth = 0i32; let mut in_str = false;
+            for (k, &c) in cs.iter().enumerate() {
+                if in_str { if c == '"' && cs[k - 1] != '\\' { in_str = false; } continue; }
+                match c { '"' => in_str = true, '[' | '(' | '{' | '<' => depth += 1, ']' | ')' | '}' | '>' => depth -= 1,
+                          ':' if depth == 0 && cs.get(k + 1) != Some(&':') && (k == 0 || cs[k - 1] != ':') => return cs[k + 1..].iter().collect::<String>().trim().to_string(), _ => {} }
+            }
+            e
+        }).collect();
+    }
     let start = match dbg.find('[') { Some(s) => s, None => return vec![] };
     let cs: Vec<char> = dbg[start + 1..].chars().collect();
     let mut out = vec![]; let mut cur = String::new(); let mut depth = 0i32; let mut in_str = false;
